@@ -252,6 +252,7 @@ def run(prop, seed, budget, ctx):
         failures += df; distinct |= dd
         for k, v in dh.items(): hist["discriminated:" + k] += v
         of, on = run_ordered(rnd, seed, budget, hist, distinct); failures += of; dn += on
+        of, on = run_flat_reuse(rnd, seed, budget, hist, distinct); failures += of; dn += on
         return {"evaluations": len(meta) + dn, "distinct_nontrivial": len(distinct),
                 "rule": "generated types x values obtained by deserializing valid data x random options; plus discriminated unions (serialize adds the discriminator, the value "
                         "round-trips); non-trivial = non-leaf type; distinct by (type, datum, options)",
@@ -478,6 +479,46 @@ def run_inherited(rnd, budget, hist, distinct):
                     failures.append({"kind": "P", "part": "inherited", "features": ["inherited-serializer"], "hierarchy": "A <- B <- C <- D; serializer on A (inherited)",
                                      "own_serializers(inherited flag)": flags, "call": what, "got": repr(got)[:200], "expected": repr(exp), "why": ["image-is-not-the-one-of-the-applicable-serializer"], "k_ok": None})
                     hist["P:image-is-not-the-one-of-the-applicable-serializer"] += 1; break
+    return failures, n
+
+
+def run_flat_reuse(rnd, seed, budget, hist, distinct):
+    """C05 on a class with a flattened field used several times in one type, plainly and under field-level constraints / validators / Optional
+    (each use is compiled from the same visit with other merged constraints): every use round-trips"""
+    from apischema import deserialize, serialize
+    src = ["from dataclasses import dataclass, field", "from typing import *", "from apischema import schema, validator", "from apischema.metadata import flatten, validators", "",
+           "def positive_limit(q):", "    if q.page.limit < 0: raise ValueError('negative')", ""]
+    n_f = 12 * budget; specs = []
+    MD = [None, "schema(description='again')", "schema(min_props=1)", "validators(positive_limit)", "schema(max_props=9)"]
+    for i in range(n_f):
+        req = rnd.random() < 0.5
+        src += ["@dataclass", f"class FPage{i}:", ("    limit: int" if req else "    limit: int = 10"), "    offset: int = 0", "",
+                "@dataclass", f"class FQuery{i}:", "    text: str", f"    page: FPage{i} = field(" + ("" if req else f"default_factory=FPage{i}, ") + "metadata=flatten)", ""]
+        uses = [rnd.choice(MD) for _ in range(3)]
+        if all(u is None for u in uses): uses[rnd.randrange(3)] = MD[1]
+        opt = rnd.random() < 0.5
+        lines = ["@dataclass", f"class FBatch{i}:"]
+        for j, md in enumerate(uses[:2]): lines.append(f"    u{j}: FQuery{i}" + (f" = field(metadata={md})" if md else ""))
+        lines.append(f"    u2: {'Optional[' if opt else ''}FQuery{i}{']' if opt else ''}" + (f" = field(metadata={uses[2]})" if uses[2] else ""))
+        lines.append(f"    us: List[FQuery{i}] = field(default_factory=list)")
+        src += lines + [""]; specs.append((i, lines, uses))
+    mod = build_module(src, f"C05flat_{seed}")
+    failures, n = [], 0
+    for i, lines, uses in specs:
+        P, Q, B = getattr(mod, f"FPage{i}"), getattr(mod, f"FQuery{i}"), getattr(mod, f"FBatch{i}")
+        mk = lambda k: Q(f"q{k}", P(k + 1, k + 2))
+        v = B(mk(0), mk(1), mk(2), [mk(3)]); n += 1
+        hist["flattened-class-used-several-times"] += 1; distinct.add(case_hash("flat-reuse", lines))
+        why, s_ = [], None
+        try:
+            # (the first use of the types is sometimes the deserialization, sometimes the serialization)
+            if rnd.random() < 0.5: deserialize(Q, {"text": "t", "limit": 1})
+            s_ = serialize(B, v); back = deserialize(B, s_)
+            if back != v: why.append("deserialize(serialize(v))-differs-from-v")
+        except Exception as e: why.append("round-trip-raises:" + type(e).__name__ + ":" + str(e)[:80])
+        if why:
+            failures.append({"kind": "P", "part": "ordered", "features": ["flatten-reuse"], "class_src": lines, "value": repr(v), "serialized": repr(s_), "why": why, "k_ok": None})
+            hist["P:" + why[0].split(":")[0]] += 1
     return failures, n
 
 
